@@ -223,7 +223,15 @@ def sampler_obligations(ck):
                 ck.prove("%s/post.event%s[p%d,e%d]" % (qn, tag, pi, i), hy, inv, search=lambda: native_first(ck), replay=lambda m: native_first(ck),
                          clause="event i's value inverts the CDF row interpolated at event i's OWN (log_e_nu, beta) at event i's own u")
         calls = [c for c in log if c[0] == "interpn"]
-        okc = bool(calls) and all(c[1] == ("AX_E", "AX_B") and c[2] == "TABLE" and not c[4] for c in calls)
+        def effective(kw):
+            """interpn options that leave it the default multilinear, range-checked interpolation (implicit or spelled out)"""
+            kw = dict(kw or {})
+            meth = kw.pop("method", "linear")
+            be = kw.pop("bounds_error", True)
+            kw.pop("fill_value", None)
+            return meth == "linear" and (be is True or (isinstance(be, (bool, np.bool_)) and bool(be))) and not kw
+
+        okc = bool(calls) and all(c[1] == ("AX_E", "AX_B") and c[2] == "TABLE" and effective(c[4]) for c in calls)
         ck.direct("%s/call.interpn" % qn, okc, "pre", "symbolic-execution(call-site)", note=str([(c[1], c[4]) for c in calls])[:200],
                   clause="interpn is called on (log_e_nu, beta_rad) -- the first two axes of the table, in order -- with scipy's default bounds_error (out-of-range energies raise), rows along e_tau_frac",
                   replay_out=None if okc else native_first(ck))
